@@ -183,159 +183,62 @@ def rule_main_gate(ctx: Ctx, repo: Repo) -> None:
 
 
 def rule_default_filter(ctx: Ctx, repo: Repo) -> None:
-    mod = repo.module("monkeytype.config")
+    """default_code_filter is interpreted on a table of code objects in an abstract file-system world (three library
+    roots, a symbolic link into site-packages, look-alike directories, synthetic file names) x allow-lists; the verdict
+    must equal the oracle written from the property's sentence."""
+    from . import path_model as PM
     f = repo.fn("monkeytype.config", "default_code_filter")
     ctx.functions.add(f.fq)
-    g = cfg_of(f)
-    cparam = f.positional_params()[0]
-    # (a) synthetic names: abstract interpretation of the function on empty / <...> file names
-    for fn in ("", "<string>", "<frozen importlib._bootstrap>", "<stdin>"):
-        ri = RepoInterp(repo, f, may_fork=())
-        effects: List[str] = []
-        ri.call_hook = lambda call, fname, fval, args, kwargs, st, _e=effects: (None if isinstance(fval, K) and isinstance(fval.v, str) else _e.append(norm(call.func))) or None
-        try:
-            outs = ri.run({cparam: R("code", co_filename=K(fn), co_name=K("f"))})
-        except AnalysisError as e:
-            ctx.violate("R-C17.3", f.fq, f"co_filename={fn!r}", f"synthetic file name is not rejected before path work ({e})")
-            continue
-        ok = len(outs) == 1 and outs[0].term == ("return", K(False)) and not effects
-        ctx.check(ok, "R-C17.3", f.fq, "code without a real source file is rejected before any path work",
-                  construct=f"co_filename={fn!r}: outcome {[o.term for o in outs]} calls {effects}")
-    # (b) the file name is resolved before any relative_to / prefix test
-    tests = g.find_calls(lambda c: (isinstance(c.func, ast.Attribute) and c.func.attr in ("relative_to", "is_relative_to")) or is_call_to(c, "_startswith"))
-    ctx.floor("R-C17.3", "path prefix tests in default_code_filter", len(tests), 2)
-    for n, c in tests:
-        subj = c.func.value if isinstance(c.func, ast.Attribute) and c.func.attr in ("relative_to", "is_relative_to") else c.args[0]
-        other = c.args[0] if isinstance(c.func, ast.Attribute) and c.func.attr in ("relative_to", "is_relative_to") else c.args[1]
-        roots = g.origins(subj, n.id)
-        ok = bool(roots) and all(
-            (method_call(r, "resolve") and is_call_to(r.func.value, "Path", "PurePath") and
-             norm(r.func.value.args[0]) == f"{cparam}.co_filename")
-            or (method_call(r, "relative_to") and True)  # the remainder of an already resolved path
-            for r, _, _ in roots)
-        # relative_to results must themselves come from the resolved name
-        for r, _, at in roots:
-            if method_call(r, "relative_to"):
-                ok = ok and all(method_call(q, "resolve") or method_call(q, "relative_to") for q, _, _ in g.origins(r.func.value, at))
-        ctx.check(ok, "R-C17.3", f.fq, "the tested file name went through Path(code.co_filename).resolve()", construct=norm(c), node=c)
-        # the other operand is an element of LIB_PATHS
-        o_roots = g.origins(other, n.id)
-        elem_ok = False
-        for x in ast.walk(f.node):
-            if isinstance(x, ast.comprehension) and dotted(x.iter) == "LIB_PATHS" and dotted(x.target) == dotted(other) and not x.ifs:
-                elem_ok = True
-            if isinstance(x, ast.For) and dotted(x.iter) == "LIB_PATHS" and dotted(x.target) == dotted(other):
-                elem_ok = True
-        ctx.check(elem_ok, "R-C17.3", f.fq, "the library root tested is an element of LIB_PATHS (unfiltered iteration)", construct=norm(c), node=c)
-    # (c) LIB_PATHS: every element resolved; keys include stdlib, purelib, platlib
-    lp = mod.constants.get("LIB_PATHS")
-    if lp is None:
-        raise AnalysisError("LIB_PATHS not found")
-    comp = [x for x in ast.walk(lp) if isinstance(x, (ast.GeneratorExp, ast.ListComp, ast.SetComp))]
-    ok = False
-    if comp:
-        c0 = comp[0]
-        elt = c0.elt
-        ok = method_call(elt, "resolve") and is_call_to(elt.func.value, "Path") and len(c0.generators) == 1
-        gen = c0.generators[0]
-        ok = ok and all(norm(i) in (f"{norm(gen.target)} is not None", f"{norm(gen.target)}") for i in gen.ifs)
-        src_name = dotted(gen.iter)
-        ok = ok and src_name is not None and src_name in mod.constants
-        if ok:
-            src = mod.constants[src_name]
-            keys = {k.value for k in ast.walk(src) if isinstance(k, ast.Constant) and isinstance(k.value, str)}
-            has_get_path = any(is_call_to(x, "get_path") for x in ast.walk(src))
-            filt = comprehension_conditions(src)
-            ctx.check({"stdlib", "purelib", "platlib"} <= keys and has_get_path and not filt, "R-C17.3", mod.name,
-                      "library roots are sysconfig.get_path of stdlib, purelib and platlib (all three)",
-                      construct=norm(src))
-    ctx.check(ok, "R-C17.3", mod.name, "every library root passes through Path(...).resolve(); only None entries are dropped", construct="LIB_PATHS = " + norm(lp))
-    # (d) exclusion is `not any(_startswith(filename, root) for root in LIB_PATHS)`
-    found = False
-    for n, val in returns_of(f):
-        if val is None:
-            continue
-        if isinstance(val, ast.UnaryOp) and isinstance(val.op, ast.Not) and is_call_to(val.operand, "any"):
-            ge = val.operand.args[0] if val.operand.args else None
-            if isinstance(ge, (ast.GeneratorExp, ast.ListComp)) and len(ge.generators) == 1 and dotted(ge.generators[0].iter) == "LIB_PATHS" and not ge.generators[0].ifs:
-                found = True
-                ctx.ok("R-C17.3", f.fq, "code is admitted iff its resolved file is under none of the library roots (not any over all roots)")
-                # reached only when no allow-list is configured
-    ctx.check(found, "R-C17.3", f.fq, "the default verdict is `not any(<file under root> for root in LIB_PATHS)`", construct="return statements: " + "; ".join(norm(n.ast) for n, _ in returns_of(f)))
-    # _startswith(a, b) == a is b or below b
-    sw = repo.fn("monkeytype.config", "_startswith", required=False)
-    if sw is not None:
-        ctx.functions.add(sw.fq)
-        a, b = sw.positional_params()[:2]
-        tries = [x for x in ast.walk(sw.node) if isinstance(x, ast.Try)]
-        ok = False
-        if len(tries) == 1:
-            t = tries[0]
-            rets = [x for x in t.body if isinstance(x, ast.Return)]
-            okb = len(rets) == 1 and any(method_call(x, "relative_to") and dotted(x.func.value) == a and dotted(x.args[0]) == b for x in ast.walk(rets[0]))
-            okb = okb and (is_call_to(rets[0].value, "bool") or isinstance(rets[0].value, ast.Constant) and rets[0].value.value is True)
-            okh = len(t.handlers) == 1 and norm(t.handlers[0].type) == "ValueError" and len(t.handlers[0].body) == 1 and isinstance(t.handlers[0].body[0], ast.Return) and isinstance(t.handlers[0].body[0].value, ast.Constant) and t.handlers[0].body[0].value.value is False
-            ok = okb and okh
-        ctx.check(ok, "R-C17.3", sw.fq, "_startswith(a, b) is True iff a.relative_to(b) succeeds, False on ValueError", construct=norm(sw.node.body[-1]))
-    # (e) allow-list branch
-    envs = g.find_calls(lambda c: norm(c.func) in ("os.environ.get", "os.getenv") and c.args and isinstance(c.args[0], ast.Constant) and c.args[0].value == "MONKEYTYPE_TRACE_MODULES")
-    ctx.floor("R-C17.3", "read of MONKEYTYPE_TRACE_MODULES", len(envs), 1)
-    ctx.check(all(len(c.args) == 1 and not c.keywords for _, c in envs), "R-C17.3", f.fq,
-              "the allow-list variable is read without a default (unset stays None)", construct="; ".join(norm(c) for _, c in envs))
-    allow_rets = []
-    for n, val in returns_of(f):
-        if val is not None and is_call_to(val, "any") and not (isinstance(val, ast.UnaryOp)):
-            allow_rets.append((n, val))
-    ctx.floor("R-C17.3", "allow-list verdict", len(allow_rets), 1)
-    for n, val in allow_rets:
-        okg = has_guard(g, n.id, lambda a, pol: isinstance(a, ast.Compare) and len(a.ops) == 1 and is_none(a.comparators[0]) and
-                        ((isinstance(a.ops[0], ast.IsNot) and pol) or (isinstance(a.ops[0], ast.Is) and not pol)))
-        ctx.check(okg, "R-C17.3", f.fq, "the allow-list branch is taken exactly when the variable is set (is not None)", construct=norm(n.ast), node=n.ast)
-        ge = val.args[0] if val.args else None
-        okq = isinstance(ge, (ast.GeneratorExp, ast.ListComp)) and len(ge.generators) == 1 and not ge.generators[0].ifs
-        if okq:
-            tv = norm(ge.generators[0].target)
-            elt = ge.elt
-            atoms = [norm(v) for v in elt.values] if isinstance(elt, ast.BoolOp) and isinstance(elt.op, ast.Or) else [norm(elt)]
-            stem = any(a.replace(" ", "") in (f"{tv}==filename.stem".replace(" ", ""), f"filename.stem=={tv}") for a in atoms)
-            parts = any(a == f"{tv} in filename.parts" for a in atoms)
-            okq = stem and parts
-            it_roots = g.origins(ge.generators[0].iter, n.id)
-            okq = okq and all(method_call(r, "split") and r.args and isinstance(r.args[0], ast.Constant) and r.args[0].value == "," for r, _, _ in it_roots)
-        ctx.check(bool(okq), "R-C17.3", f.fq,
-                  "with an allow-list, code is admitted iff some listed name equals the file's stem or one of its path parts",
-                  construct=norm(val), node=val)
+    n = 0
+    roots_seen = None
+    for allow in PM.ALLOW_LISTS:
+        sc = PM.FilterScenario(repo, allow)
+        if roots_seen is None:
+            roots_seen = sc.lib_paths()
+        for fn, what in PM.FILES:
+            if allow is not None and fn in PM.ALLOW_SKIP:
+                continue
+            kind, val, work = sc.verdict(fn)
+            want = PM.oracle(fn, allow)
+            n += 1
+            lab = f"co_filename={fn!r} ({what}), MONKEYTYPE_TRACE_MODULES={'unset' if allow is None else repr(allow)}"
+            if not fn or fn.startswith("<"):
+                ctx.check(kind == "value" and val is False and not work, "R-C17.3", f.fq,
+                          "code without a real source file is rejected before any path work",
+                          construct=f"{lab}: {kind} {val}, path operations {work}")
+                continue
+            if allow is None:
+                msg = "without an allow-list, code is admitted iff its resolved file lies under none of the library roots (stdlib, purelib, platlib)"
+            else:
+                msg = "with an allow-list, code is admitted iff some listed name is the file's module name or one of its packages, wherever it is installed"
+            ctx.check(kind == "value" and val is want, "R-C17.3", f.fq, msg, construct=f"{lab}: verdict {val if kind == 'value' else kind + ' ' + str(val)}, expected {want}")
+        ctx.check("MONKEYTYPE_TRACE_MODULES" in sc.env_reads, "R-C17.3", f.fq, "the allow-list comes from MONKEYTYPE_TRACE_MODULES",
+                  construct=f"environment reads {sorted(set(sc.env_reads))}")
+    ctx.floor("R-C17.3", "code objects x allow-lists decided for default_code_filter", n, 100)
+    ctx.note(f"LIB_PATHS in the abstract world: {roots_seen}")
     # the filter the default configuration ships
     dc = repo.cls("monkeytype.config", "DefaultConfig")
     m = repo.method(dc, "code_filter")
-    rets = returns_of(m)
-    ctx.check(len(rets) == 1 and dotted(rets[0][1]) == "default_code_filter" and m.cls is dc, "R-C17.3", m.fq,
-              "DefaultConfig.code_filter returns default_code_filter", construct="; ".join(norm(n.ast) for n, _ in rets))
+    ri = RepoInterp(repo, m, may_fork=())
+    outs = ri.run({"self": S("self")})
+    vals = [o.term[1] if o.term is not None and o.term[0] == "return" else None for o in outs]
+    ctx.check(len(outs) == 1 and vals[0] == S("func:monkeytype.config.default_code_filter") and m.cls is dc, "R-C17.3", m.fq,
+              "DefaultConfig.code_filter returns default_code_filter", construct=f"returns {vals}")
 
 
 def rule_forwarding(ctx: Ctx, repo: Repo) -> None:
+    from . import glue_model as GM
     ci = repo.cls(M, "CallTracer")
     ok, why = attr_is_param(repo, ci, "should_trace", "code_filter")
     ctx.check(ok, "R-C17.4", ci.fq, "CallTracer.should_trace is the constructor's code_filter parameter, stored once", construct=why)
-    init = repo.method(ci, "__init__")
-    tc = repo.fn(M, "trace_calls")
-    for caller, call, callee in [s for s in call_sites(repo, lambda c: c is init) if s[0] is tc]:
-        a = bound_argument(callee, call, "code_filter")
-        ctx.check(a is not None and dotted(a) == "code_filter", "R-C17.4", caller.fq, "trace_calls forwards its code_filter to the tracer", construct=norm(call), node=call)
-    sites = call_sites(repo, lambda c: c is tc)
-    ctx.floor("R-C17.4", "call of trace_calls", len(sites), 1)
-    for caller, call, callee in sites:
-        a = bound_argument(callee, call, "code_filter")
-        okk = a is not None and isinstance(a, ast.Call) and isinstance(a.func, ast.Attribute) and a.func.attr == "code_filter" and not a.args
-        ctx.check(okk, "R-C17.4", caller.fq, "trace() passes config.code_filter() to trace_calls", construct=norm(call), node=call)
-        a = bound_argument(callee, call, "logger")
-        okk = a is not None and isinstance(a, ast.Call) and isinstance(a.func, ast.Attribute) and a.func.attr == "trace_logger" and not a.args
-        ctx.check(okk, "R-C17.4", caller.fq, "trace() passes config.trace_logger() to trace_calls", construct=norm(call), node=call)
+    GM.check_tracer_forwarding(ctx, repo, "R-C17.4", "code_filter", "code_filter", "trace_calls forwards its code_filter to the tracer")
+    GM.check_forwarding(ctx, repo, "R-C17.4", "code_filter", "code_filter", "trace() passes config.code_filter() to trace_calls")
+    GM.check_forwarding(ctx, repo, "R-C17.4", "logger", "trace_logger", "trace() passes config.trace_logger() to trace_calls")
     cfgc = repo.cls("monkeytype.config", "Config")
     tl = repo.method(cfgc, "trace_logger")
-    rets = returns_of(tl)
-    ctx.check(len(rets) == 1 and is_call_to(rets[0][1], "CallTraceStoreLogger"), "R-C17.4", tl.fq,
-              "the default trace logger is the store logger (which drops __main__)", construct="; ".join(norm(n.ast) for n, _ in rets))
+    made = GM.default_logger(repo)
+    ctx.check(made is not None and made[0] == "CallTraceStoreLogger", "R-C17.4", tl.fq,
+              "the default trace logger is the store logger (which drops __main__)", construct=f"returns {made}")
 
 
 def run(ctx: Ctx, repo: Repo, tier: str) -> None:
